@@ -240,8 +240,20 @@ def build(rng, tier):
         # count / sum over it are 0 - the rules consulting it fire all the same
         variants1 = [(f"{pid}_run1", module_run(f"{pid}_run1", p, init_rels={0}), "ascent_run"), (f"{pid}_runpar1", module_run(f"{pid}_runpar1", p, par=True, init_rels={0}), "ascent_run_par"),
                      (f"{pid}_run0", module_run(f"{pid}_run0", p, init_rels=set()), "ascent_run")]
-        for vid, text, kind in variants + variants1:
+        # ... and the attribute variants of the same program (#![measure_rule_times], #![generate_run_timeout], both; ascent! and ascent_par!) on inputs in which the negated /
+        # aggregated relations are EMPTY: an attribute that only adds bookkeeping must not turn "a body relation is empty" into "the rule cannot fire" for aggregated relations
+        variants2 = [(f"{pid}_mrt", eng.rs_module(f"{pid}_mrt", p, attrs=("measure_rule_times",)), "measure_rule_times"),
+                     (f"{pid}_mrtp", eng.rs_module(f"{pid}_mrtp", p, macro="ascent_par", attrs=("measure_rule_times",)), "measure_rule_times-par"),
+                     (f"{pid}_both", eng.rs_module(f"{pid}_both", p, attrs=("measure_rule_times", "generate_run_timeout")), "measure_rule_times+generate_run_timeout")]
+        for vid, text, kind in variants + variants1 + variants2:
             progs[vid] = p; mods.append((vid, text))
+        for j in range(3 if tier == "quick" else 6):
+            inp = {0: [] if j % 3 else [(r4.range(0, 6),)], 1: [] if j % 3 != 2 else [(r4.range(0, 6), 1)], 2: [], 3: [], 4: []}
+            for vid, text, kind in variants2:
+                inst = f"{vid}_z{j}"
+                hist = engcheck.std_history(inst, vid, inp)
+                if kind.endswith("-par"): hist[0] += " par 2"
+                cases.append(engcheck.Case(vid, inst, hist, {"inp": inp, "kind": kind + " (negation / aggregation over an empty relation)"}))
         for j in range(2 if tier == "quick" else 5):
             inp = {0: list(dict.fromkeys((r4.range(0, 6),) for _ in range(r4.range(1, 4)))), 1: [], 2: [], 3: [], 4: []}
             for vi, (vid, text, kind) in enumerate([variants[0]] + variants1):
